@@ -109,6 +109,11 @@ def Node.setOwn (o' : Own) : Node → Node
   | .fn _ fid => .fn o' fid
   | .comp _ k l ks => .comp o' k l ks
 
+/-- the node with its input values replaced (a fetch that is not followed by a run) -/
+def Node.withIns (i : List Val) : Node → Node
+  | .fn o fid => .fn { o with ins := i } fid
+  | .comp o k l ks => .comp { o with ins := i } k l ks
+
 def Node.isComp : Node → Bool
   | .fn _ _ => false
   | .comp _ _ _ _ => true
@@ -267,8 +272,8 @@ def runKids (cfg : Cfg) (fails : Nat → Bool) (mode : Mode) (pins : List Val) (
   | [] => st
   | n :: rest =>
     match prep pins links st n.own with
-    | .skip i => runKids cfg fails mode pins links (st.push n (n.setOwn { n.own with ins := i }) false false) rest
-    | .refuse i => runKids cfg fails mode pins links (st.push n (n.setOwn { n.own with ins := i }) false true) rest
+    | .skip i => runKids cfg fails mode pins links (st.push n (n.withIns i) false false) rest
+    | .refuse i => runKids cfg fails mode pins links (st.push n (n.withIns i) false true) rest
     | .go i =>
       let n' := run cfg fails mode i n
       runKids cfg fails mode pins links (st.push n n' (!n'.own.failed) n'.own.failed) rest
@@ -329,6 +334,14 @@ def Own.shape (o : Own) : Shape :=
 inductive ShapeT
   | fn (s : Shape) (fid : Nat)
   | comp (s : Shape) (k : CK) (links : List (Option Ref)) (kids : List ShapeT)
+
+def ShapeT.top : ShapeT → Shape
+  | .fn s _ => s
+  | .comp s _ _ _ => s
+
+def ShapeT.kidTops : ShapeT → List Shape
+  | .fn _ _ => []
+  | .comp _ _ _ ks => ks.map ShapeT.top
 
 mutual
 def shapeOf : Node → ShapeT
@@ -435,25 +448,27 @@ def submit (snapAtSubmit : Bool) (s : Sess) : Sess × Res :=
           if o.exe.byValue then .copy (if snapAtSubmit then some n2 else none) else .shared
       ({ s with node := n2, job := some job }, .future)
 
-/-- the done-callback `_finish_run` -/
-def complete (cfg : Cfg) (fails : Nat → Bool) (s : Sess) : Sess × Res :=
-  match s.job, s.node with
-  | some (.leaf args), .fn o fid =>
+/-- the done-callback `_finish_run` of the job `j` on the local object -/
+def finish (cfg : Cfg) (fails : Nat → Bool) : Job → Node → Option Node
+  | .leaf args, .fn o fid =>
     -- the function saw `args`; the node's inputs are whatever it holds now
-    let o' := o.leafRun fails fid args
-    ({ s with node := .fn { o' with ins := o.ins } fid, job := none }, .ok)
-  | some .shared, .comp o k l ks =>
-    ({ s with node := run cfg fails (.honour false) o.ins (.comp o k l ks), job := none }, .ok)
-  | some (.copy snap), .comp o k l ks =>
-    -- what was serialised: the snapshot, or the object as it is when the job is picked up
-    match snap with
-    | some (.comp so _ sl sks) =>
-      ({ s with node := mergeOrFail cfg o k sl ks so.ins so.out
-                          (runKids cfg fails (.honour true) so.ins sl KS.init sks), job := none }, .ok)
-    | _ =>
-      ({ s with node := mergeOrFail cfg o k l ks o.ins o.out
-                          (runKids cfg fails (.honour true) o.ins l KS.init ks), job := none }, .ok)
-  | _, _ => (s, .notOut)
+    some (.fn { o.leafRun fails fid args with ins := o.ins } fid)
+  | .shared, .comp o k l ks => some (run cfg fails (.honour false) o.ins (.comp o k l ks))
+  | .copy (some (.comp so _ sl sks)), .comp o k _ ks =>
+    -- the copy was serialised at submission
+    some (mergeOrFail cfg o k sl ks so.ins so.out (runKids cfg fails (.honour true) so.ins sl KS.init sks))
+  | .copy _, .comp o k l ks =>
+    -- … or when the job was picked up: the object as it is now
+    some (mergeOrFail cfg o k l ks o.ins o.out (runKids cfg fails (.honour true) o.ins l KS.init ks))
+  | _, _ => none
+
+def complete (cfg : Cfg) (fails : Nat → Bool) (s : Sess) : Sess × Res :=
+  match s.job with
+  | none => (s, .notOut)
+  | some j =>
+    match finish cfg fails j s.node with
+    | some n => ({ s with node := n, job := none }, .ok)
+    | none => (s, .notOut)
 
 def edit (s : Sess) : Edit → Sess × Res
   | .setIn k v =>
